@@ -13,7 +13,8 @@ TRUSTED = [
     "hand-written model coq/Model/Dedup.v of deduplicate_select_items, tied the same way (hook commit b55902d); both functions are textually unchanged at /repo HEAD 2a611aa (only cfg(prqlc_verif) code was added to gen_projection.rs)",
     "star stream: sqlparser (parse of the emitted duckdb / bigquery / snowflake SQL) and the star expander of harness/src/c05.rs, validated on every run against the column names SQLite reports",
     "hand-written model coq/Model/SelectItems.v of translate_select_item / translate_exclude / as_col_names / translate_select_items (on C09's Model/NameGen.v select_item_alias and Model/Dedup.v), tied by exact correspondence with every real call (hooks select-item bab53a0, select-items 7fc85b6, pq-names d5c1b7e); inputs of the model that are not modelled: the shape of a column's expression (translate_cid), identifier quoting (compared by value)",
-    "not modelled: push_select / the limiting SELECT of extract_atomic are covered by execution only",
+    "Model/LimitSelect.v (limiting-SELECT decision of extract_atomic; tied to every real call through verif:extract_atomic); push_select through C16's Model/LowererSelect.v (read-only; tied by C16's lowerer replay)",
+    "not modelled: anchor_split's construction of the relation instance behind a split (where F49, F34, F24-dangling-renamed-duplicate live)",
 ]
 
 
